@@ -1,6 +1,7 @@
 import T4V.Text.NormFloat
 import T4V.Proofs.GeomComp
 import T4V.Props.C05
+import T4V.Props.C10
 import Mathlib.Data.List.Nodup
 import Mathlib.Tactic.Ring
 import Mathlib.Tactic.NormNum
@@ -833,6 +834,102 @@ theorem leaf_material_is_filler (cells : List FCell) (fuel : Nat) (c : FCell) (l
     (h : fillCells cells fuel c = some leaves) (l : FLeaf) (hl : l ∈ leaves) :
     ∃ b ∈ c :: cells, b.id = l.base ∧ b.fill = none ∧ l.mat = b.mat ∧ l.rho = b.rho :=
   (C05.provenance cells fuel c leaves h l hl).2.1
+
+/-! ### the name GEOMCOMP files a volume under is a composition declared in COMPOSITION -/
+
+theorem keyFrac_idem (fp : List Char) : keyFrac (keyFrac fp) = keyFrac fp := by
+  unfold keyFrac
+  by_cases h : stripZerosR fp = []
+  · simp only [h, if_true]
+    decide
+  · simp only [h, if_false]
+    have : stripZerosR (stripZerosR fp) = stripZerosR fp := stripZerosR_noop _ (stripZerosR_last fp)
+    simp [this, h]
+
+/-- `normalize_float` leaves its own results alone: plain decimals … -/
+theorem normalizeFloat_idem_plain (d : PlainDec) (hw : d.WF) :
+    normalizeFloat (normalizeFloat d.chars) = normalizeFloat d.chars := by
+  rw [normalizeFloat_plain d hw, normalizeFloat_plain (keyDec d) (keyDec_WF d hw)]
+  simp [keyDec, keyFrac_idem]
+
+/-- … literals with an exponent … -/
+theorem normalizeFloat_idem_exp (l : ExpLit) (hw : l.WF) :
+    normalizeFloat (normalizeFloat l.chars) = normalizeFloat l.chars := by
+  rw [normalizeFloat_exp l hw, normalizeFloat_exp l.withE (withE_WF l hw)]
+  rfl
+
+/-- … and integers (sign? digits), which it does not touch at all -/
+theorem normalizeFloat_int (sg : Option Char) (ds : List Char) (hsg : ∀ c, sg = some c → isSign c = true)
+    (hds : ∀ c ∈ ds, isDig c = true) (hne : ds ≠ []) : normalizeFloat (optC sg ++ ds) = optC sg ++ ds := by
+  obtain ⟨d0, dr, rfl⟩ : ∃ a r, ds = a :: r := by cases ds with | nil => exact absurd rfl hne | cons a r => exact ⟨a, r, rfl⟩
+  have hd0 : isDig d0 = true := hds d0 (by simp)
+  have hss : splitSign (optC sg ++ d0 :: dr) = (optC sg, d0 :: dr) := by
+    cases hs : sg with
+    | some c => have := hsg c hs; simp [optC, splitSign, this]
+    | none => simp [optC, splitSign, digit_not_sign d0 hd0]
+  have htw := takeWhile_all (p := isDig) (d0 :: dr) hds
+  have h1 : nfStripZeros (optC sg ++ d0 :: dr) = optC sg ++ d0 :: dr := by
+    unfold nfStripZeros
+    rw [hss]
+    simp only [htw.2]
+  have hlast : ∃ z, (optC sg ++ d0 :: dr).getLast? = some z ∧ isDig z = true := by
+    have : (optC sg ++ d0 :: dr).getLast? = (d0 :: dr).getLast? := by
+      rw [List.getLast?_append]
+      cases hl : (d0 :: dr).getLast? with
+      | none => simp at hl
+      | some z => rfl
+    rw [this]
+    cases hl : (d0 :: dr).getLast? with
+    | none => simp at hl
+    | some z => exact ⟨z, rfl, hds z (List.mem_of_getLast? hl)⟩
+  have h2 : nfPointZero (optC sg ++ d0 :: dr) = optC sg ++ d0 :: dr := by
+    unfold nfPointZero
+    obtain ⟨z, hz, hzd⟩ := hlast
+    have : z ≠ '.' := by intro e; subst e; exact absurd hzd (by decide)
+    simp [hz, this]
+  have h3 : nfInsertE (optC sg ++ d0 :: dr) = optC sg ++ d0 :: dr := by
+    unfold nfInsertE
+    rw [hss]
+    simp only [htw.1, htw.2]
+    simp
+  have h4 : nfMarkers (optC sg ++ d0 :: dr) = optC sg ++ d0 :: dr := by
+    apply nfMarkers_keep
+    intro c hc
+    rcases List.mem_append.mp hc with h | h
+    · cases hs : sg with
+      | none => simp [optC, hs] at h
+      | some c0 =>
+        simp only [optC, hs, List.mem_singleton] at h; subst h
+        exact (sign_props c (hsg c hs)).2.2
+    · exact (dig_props c (hds c h)).2.2
+  unfold normalizeFloat
+  rw [h1, h2, h3, h4]
+
+/-- a density literal as the cell parser hands it on: `normalize_float` of a plain decimal or of a literal with an
+exponent, or an integer -/
+inductive Normalised : List Char → Prop
+  | plain (d : PlainDec) (hw : d.WF) : Normalised (normalizeFloat d.chars)
+  | exp (l : ExpLit) (hw : l.WF) : Normalised (normalizeFloat l.chars)
+  | int (sg : Option Char) (ds : List Char) (hsg : ∀ c, sg = some c → isSign c = true)
+      (hds : ∀ c ∈ ds, isDig c = true) (hne : ds ≠ []) : Normalised (optC sg ++ ds)
+
+theorem normalised_fixed (x : List Char) (h : Normalised x) : normalizeFloat x = x := by
+  cases h with
+  | plain d hw => exact normalizeFloat_idem_plain d hw
+  | exp l hw => exact normalizeFloat_idem_exp l hw
+  | int sg ds hsg hds hne => exact normalizeFloat_int sg ds hsg hds hne
+
+open T4V.CM in
+/-- **the name GEOMCOMP uses is declared in COMPOSITION**: GEOMCOMP files the volumes of a cell under
+`m<material>_<density>`, the density as the cell parser normalised it; for every live cell that uses a material with a
+card, the COMPOSITION block built from the same cells has a composition of exactly that name (`normalize_float` is
+applied once more there, and leaves a normalised literal alone) -/
+theorem geomcomp_name_is_declared (key : Nat) (ab : Abund) (cells : List CCell) (cs : List Comp)
+    (h : compsOf key ab cells [] = .ok cs) (cell : CCell) (hc : cell ∈ cells) (hl : cell.live = true)
+    (hm : cell.mat = key) (hn : Normalised cell.density) :
+    ∃ c ∈ cs, c.name ++ "_" ++ String.ofList c.density = "m" ++ toString key ++ "_" ++ String.ofList cell.density := by
+  obtain ⟨c, hcm, hname, hdens⟩ := C10.every_used_density_has_a_composition key ab cells [] cs h cell hc hl hm (by simp)
+  exact ⟨c, hcm, by rw [hname, hdens, normalised_fixed _ hn]⟩
 
 example : geomComp (fun k => if k == 5 then some ⟨"1", some "-2.7"⟩ else if k == 7 then some ⟨"0", none⟩ else none)
       [⟨20, false, [(5, 9)]⟩, ⟨21, true, []⟩, ⟨7, false, []⟩, ⟨22, false, [(5, 8)]⟩]
